@@ -7,7 +7,13 @@
 // Where() expressions (Text == / != literal, Text == Text of another group, Text.Matches, `$$`, !, &&, ||), At(),
 // Suggest() (also one that renders to the empty string), two alternatives, and FAMILIES of rules that all match the same
 // comments, bind the same group names to different pieces of the comment and mostly reject through their filters
-// (what an earlier, rejected rule matched must never reach a later rule).
+// (what an earlier, rejected rule matched must never reach a later rule), and MatchComment calls with SEVERAL regexps:
+// every regexp of such a call is a comment rule of its own, tried in the written order, with its own group numbering --
+// the alternatives bind the same names at different group indices (unnamed groups in front, the shared name second,
+// optional), comments are hit by every single alternative and by every ordered pair of alternatives (the later-written
+// one further left), filters reject the first alternative's hit so that a later alternative has to report.
+// Further filters: Line (variable against variable, against a constant) and Node.Is on comment captures.
+// The harness also dumps what the engine LOADED (hook VerifCommentRules): one comment rule per written regexp, in order.
 // For every comment: the submatch indices regexp returns on comment.Text (the model's regexp oracle) and on the
 // comment's SOURCE bytes (the property's oracle), the observed report(s) and the expected report.
 package main
@@ -34,9 +40,10 @@ import (
 
 // flt is a Where() expression over comment captures.
 type flt struct {
-	Op  string `json:"op"` // eq ne eqvar nevar matches not and or
+	Op  string `json:"op"` // eq ne eqvar nevar matches lineeq linene linelt linegt nodeis not and or
 	Var string `json:"var,omitempty"`
-	Lit string `json:"lit,omitempty"` // literal / second variable / pattern
+	Lit string `json:"lit,omitempty"` // literal / second variable / pattern / node tag
+	N   int    `json:"n,omitempty"`   // linegt: the constant
 	A   *flt   `json:"a,omitempty"`
 	B   *flt   `json:"b,omitempty"`
 }
@@ -53,6 +60,16 @@ func (f *flt) dsl() string {
 		return fmt.Sprintf("m[%q].Text != m[%q].Text", f.Var, f.Lit)
 	case "matches":
 		return fmt.Sprintf("m[%q].Text.Matches(`%s`)", f.Var, f.Lit)
+	case "lineeq":
+		return fmt.Sprintf("m[%q].Line == m[%q].Line", f.Var, f.Lit)
+	case "linene":
+		return fmt.Sprintf("m[%q].Line != m[%q].Line", f.Var, f.Lit)
+	case "linelt":
+		return fmt.Sprintf("m[%q].Line < m[%q].Line", f.Var, f.Lit)
+	case "linegt":
+		return fmt.Sprintf("m[%q].Line > %d", f.Var, f.N)
+	case "nodeis":
+		return fmt.Sprintf("m[%q].Node.Is(`%s`)", f.Var, f.Lit)
 	case "not":
 		return "!(" + f.A.dsl() + ")"
 	case "and":
@@ -64,9 +81,21 @@ func (f *flt) dsl() string {
 }
 
 // eval: the property's reading of the filter -- every variable stands for the text of its group ("" when the group did
-// not participate), `$$` for the matched text; Matches is Go's regexp.
-func (f *flt) eval(text func(string) []byte) bool {
+// not participate), `$$` for the matched text; Matches is Go's regexp; the Line of a variable is the line of the file on
+// which its submatch begins (the comment's first line for a group that did not participate); a piece of a comment is a
+// node, but neither an expression nor any particular syntax node.
+func (f *flt) eval(text func(string) []byte, line func(string) int) bool {
 	switch f.Op {
+	case "lineeq":
+		return line(f.Var) == line(f.Lit)
+	case "linene":
+		return line(f.Var) != line(f.Lit)
+	case "linelt":
+		return line(f.Var) < line(f.Lit)
+	case "linegt":
+		return line(f.Var) > f.N
+	case "nodeis":
+		return f.Lit == "Node"
 	case "eq":
 		return string(text(f.Var)) == f.Lit
 	case "ne":
@@ -78,11 +107,11 @@ func (f *flt) eval(text func(string) []byte) bool {
 	case "matches":
 		return regexp.MustCompile(f.Lit).Match(text(f.Var))
 	case "not":
-		return !f.A.eval(text)
+		return !f.A.eval(text, line)
 	case "and":
-		return f.A.eval(text) && f.B.eval(text)
+		return f.A.eval(text, line) && f.B.eval(text, line)
 	case "or":
-		return f.A.eval(text) || f.B.eval(text)
+		return f.A.eval(text, line) || f.B.eval(text, line)
 	}
 	panic("bad filter op " + f.Op)
 }
@@ -110,6 +139,7 @@ type ruleSpec struct {
 	At     string   `json:"at"`
 	Line   int      `json:"line"`
 	Group  string   `json:"group"`
+	RFile  int      `json:"rfile"` // which of the rules files the call stands in
 	re     *regexp.Regexp
 }
 
@@ -218,16 +248,25 @@ type ruleDef struct {
 	msg    string
 	sugg   string
 	at     string
+	// a MatchComment call with several regexps: the literal marker each alternative starts its hit with (comments are
+	// generated from them), and whether a hit carries a second word (on the same or on the next line)
+	markers  []string
+	twoWords bool
 }
 
-func eq(v, lit string) *flt      { return &flt{Op: "eq", Var: v, Lit: lit} }
-func ne(v, lit string) *flt      { return &flt{Op: "ne", Var: v, Lit: lit} }
-func eqvar(v, w string) *flt     { return &flt{Op: "eqvar", Var: v, Lit: w} }
-func nevar(v, w string) *flt     { return &flt{Op: "nevar", Var: v, Lit: w} }
-func matches(v, pat string) *flt { return &flt{Op: "matches", Var: v, Lit: pat} }
-func not(a *flt) *flt            { return &flt{Op: "not", A: a} }
-func and(a, b *flt) *flt         { return &flt{Op: "and", A: a, B: b} }
-func or(a, b *flt) *flt          { return &flt{Op: "or", A: a, B: b} }
+func eq(v, lit string) *flt       { return &flt{Op: "eq", Var: v, Lit: lit} }
+func ne(v, lit string) *flt       { return &flt{Op: "ne", Var: v, Lit: lit} }
+func eqvar(v, w string) *flt      { return &flt{Op: "eqvar", Var: v, Lit: w} }
+func nevar(v, w string) *flt      { return &flt{Op: "nevar", Var: v, Lit: w} }
+func matches(v, pat string) *flt  { return &flt{Op: "matches", Var: v, Lit: pat} }
+func lineeq(v, w string) *flt     { return &flt{Op: "lineeq", Var: v, Lit: w} }
+func linene(v, w string) *flt     { return &flt{Op: "linene", Var: v, Lit: w} }
+func linelt(v, w string) *flt     { return &flt{Op: "linelt", Var: v, Lit: w} }
+func linegt(v string, n int) *flt { return &flt{Op: "linegt", Var: v, N: n} }
+func nodeis(v, tag string) *flt   { return &flt{Op: "nodeis", Var: v, Lit: tag} }
+func not(a *flt) *flt             { return &flt{Op: "not", A: a} }
+func and(a, b *flt) *flt          { return &flt{Op: "and", A: a, B: b} }
+func or(a, b *flt) *flt           { return &flt{Op: "or", A: a, B: b} }
 
 const tok = `[^\s-]+`
 
@@ -243,7 +282,7 @@ var fixedRules = []ruleDef{
 	{pats: []string{`(?P<n>\d+)-(?P<nn>\d+)`}, msg: "$nn/$n", sugg: "$nn-$n"},
 	{pats: []string{`beta\s+(?P<w>\w+)`}, msg: "w=$w", at: "w", sugg: "W"},
 	{pats: []string{`(?s)BEGIN(?P<body>.*)END`}, msg: "body=$body"},
-	{pats: []string{`alt1-(?P<v>\d)`, `alt2-(?P<v>\d)(?P<rest>\w*)`}, msg: "v=$v"},
+	{pats: []string{`alt1:(?P<v>\d)`, `alt2:(?P<v>\d)(?P<rest>\w*)`}, msg: "v=$v"},
 	{pats: []string{`(?P<first>\w+) (?P<second>\w+)$`}, filter: eq("second", "end"), msg: "pair $first+$second", at: "first"},
 	{pats: []string{`^//\s*(?P<all>.+)$`}, filter: eq("all", "whole line"), msg: "line:$all"},
 	// the short spelling of a named group (Go >= 1.22), alone, mixed with the long one, nested, optional, behind an
@@ -263,6 +302,121 @@ var fixedRules = []ruleDef{
 	{pats: []string{`fam0:` + tok + `-` + tok}, filter: matches("$$", `zz$`), msg: "fam0#3 v=[$v] w=[$w]", sugg: "<$v>"},
 	{pats: []string{`fam0:(` + tok + `)-(?<w>é)?`}, filter: ne("w", ""), msg: "fam0#4 v=[$v] w=[$w]", at: "w"},
 	{pats: []string{`fam0:(?<v>zz)?`}, msg: "fam0#5 v=[$v] w=[$w]", at: "v", sugg: "<$v>"},
+	// Line and Node filters on the pieces of a comment: the line of a group is the line of the file its submatch begins on
+	{pats: []string{`(?s)L1(?P<la>\w+)\s+(?P<lb>\w+)`}, filter: lineeq("la", "lb"), msg: "L1 same line $la $lb"},
+	{pats: []string{`(?s)L1(?P<la>\w+)\s+(?P<lb>\w+)`}, filter: and(linelt("la", "lb"), linene("$$", "lb")), msg: "L1 next line $la $lb", at: "lb"},
+	{pats: []string{`(?s)L2(?P<la>\w+)(\s+(?P<lb>\w+))?`}, filter: linegt("lb", 40), msg: "L2 far $la [$lb]"},
+	{pats: []string{`(?s)L2(?P<la>\w+)(\s+(?P<lb>\w+))?`}, filter: not(lineeq("$$", "lb")), msg: "L2 near, other line $la [$lb]", sugg: "$lb"},
+	{pats: []string{`N1~(?P<nv>\w+)`}, filter: or(nodeis("nv", "Ident"), nodeis("$$", "Expr")), msg: "N1 never"},
+	{pats: []string{`N1~(?P<nv>\w+)`}, filter: and(nodeis("nv", "Node"), not(nodeis("nv", "BasicLit"))), msg: "N1 node $nv"},
+}
+
+// MatchComment calls with several regexps. Every regexp is a comment rule of its own: the alternatives are tried in the
+// written order, each with its own group numbering (`word` is group 1, 2 or optional depending on the alternative).
+var fixedAltRules = []ruleDef{
+	{pats: []string{`K0a~(?P<word>\w+)`, `K0b~(?P<word>\w+)`}, filter: ne("word", ""), msg: "A0 typo [$word] in [$$]", markers: []string{"K0a", "K0b"}},
+	{pats: []string{`(?P<word>K1a~\w*)`, `(\d*)K1b~(?<word>\w+)`, `(?P<aux>K1c)~(?P<word>\w*)`}, msg: "A1 w=[$word] $$", at: "word", sugg: "<$word>",
+		markers: []string{"K1a", "K1b", "K1c"}},
+	{pats: []string{`K2a~(?P<word>x)?`, `K2b~(?P<word>\w+)`}, filter: eq("word", "lo"), msg: "A2 [$word]", sugg: "$word$word", markers: []string{"K2a", "K2b"}},
+	{pats: []string{`K3a~\w+`, `(?P<z>K3b)~\w+`, `K3c~(\w)`}, msg: "A3 plain $$", sugg: "P", markers: []string{"K3a", "K3b", "K3c"}},
+	// three calls over the same markers: the same regexps in the other order, other filters
+	{pats: []string{`K4a~(?P<word>\w+)`, `K4b~(?P<word>\w+)`}, filter: eq("word", "lo"), msg: "A4 [$word]", markers: []string{"K4a", "K4b"}},
+	{pats: []string{`K4b~(?P<word>\w+)`, `K4a~(?P<word>\w+)`}, filter: matches("word", `^h`), msg: "A5 [$word]", at: "word", markers: []string{"K4a", "K4b"}},
+	{pats: []string{`K4a~(?P<word>\w*)`}, msg: "A6 rest [$word]", sugg: "$word"},
+	// the shared names in the other order, a Line filter between them
+	{pats: []string{`(?s)K7a~(?P<word>\w+)\s+(?P<w2>\w+)`, `(?s)K7b~(?P<w2>\w+)\s+(?P<word>\w+)`, `(?s)K7c~(?P<word>\w+)\s+(?P<w2>\w+)`, `K7d~(?P<w2>(?P<word>\w+))`},
+		filter: or(linelt("word", "w2"), eq("word", "hum")), msg: "A7 $word/$w2 $$", at: "w2", sugg: "$w2 $word",
+		markers: []string{"K7a", "K7b", "K7c", "K7d"}, twoWords: true},
+}
+
+// comments that reach every class of a call with several regexps whatever the seed: a later-written alternative reports;
+// the first-written alternative reports although a later-written one matches further left; an earlier alternative of the
+// call matches and its filter rejects before a later one reports; the next call over the same markers reports
+var altFixed = []string{
+	"// K0b~hum K0a~lo", "// K0b~w9", "/* K2a~x K2b~lo */", "// K2b~lo K2a~", "// K4a~hum K4b~lo", "// K4b~hum K4a~w9", "// K4a~w9",
+	"// K1b~hum K1a~w9", "/* K3c~x K3a~lo */", "// K1c~lo", "/* K7b~lo\nhum K7a~lo hum */", "/* K7d~hum K7c~x\nxx */",
+}
+
+var altWords = []string{"lo", "hum", "x", "xx", "w9", "é", ""}
+
+// altRule: a random MatchComment call with 2..4 regexps that all bind `word`, at different group indices.
+func altRule(rng *rand.Rand, j int) ruleDef {
+	d := ruleDef{}
+	n := 2 + rng.Intn(3)
+	for i := 0; i < n; i++ {
+		mk := fmt.Sprintf("R%d%c", j, 'a'+i)
+		d.markers = append(d.markers, mk)
+		var p string
+		switch rng.Intn(6) {
+		case 0:
+			p = mk + "~" + named(rng, "word", `\w+`)
+		case 1:
+			p = named(rng, "word", mk+`~\w*`)
+		case 2:
+			p = `(\d*)` + mk + "~" + named(rng, "word", `\w+`)
+		case 3:
+			p = named(rng, "aux", mk) + "~" + named(rng, "word", `\w*`)
+		case 4:
+			p = mk + "~" + named(rng, "word", "x") + "?"
+		default:
+			p = "(" + mk + ")(~)" + named(rng, "word", `\w+`)
+		}
+		d.pats = append(d.pats, p)
+	}
+	w := altWords[rng.Intn(len(altWords)-1)]
+	switch rng.Intn(6) {
+	case 0:
+		d.filter = ne("word", "")
+	case 1:
+		d.filter = eq("word", w)
+	case 2:
+		d.filter = matches("word", "^"+w)
+	case 3:
+		d.filter = not(eq("word", w))
+	case 4:
+		d.filter = and(ne("word", w), lineeq("word", "$$"))
+	}
+	d.msg = fmt.Sprintf("R%d [$word] $$", j)
+	if rng.Intn(2) == 0 {
+		d.at = "word"
+	}
+	switch rng.Intn(3) {
+	case 0:
+		d.sugg = "<$word>"
+	case 1:
+		d.sugg = "$word$word"
+	}
+	return d
+}
+
+// altBodies: comment bodies for a call with several regexps -- a hit of every single alternative and of every ordered
+// pair of alternatives (so the later-written alternative also comes first in the comment), plus random ones.
+func altBodies(rng *rand.Rand, d ruleDef, nrand int) []string {
+	word := func() string { return altWords[rng.Intn(len(altWords))] }
+	hit := func(mk string) string {
+		h := mk + "~" + word()
+		if d.twoWords {
+			h += []string{" ", "\n", "  ", "\n\t"}[rng.Intn(4)] + word()
+		}
+		return h
+	}
+	var out []string
+	for _, a := range d.markers {
+		out = append(out, hit(a), hit(a))
+		for _, b := range d.markers {
+			if a != b {
+				out = append(out, hit(a)+" "+hit(b))
+			}
+		}
+	}
+	for i := 0; i < nrand; i++ {
+		var parts []string
+		for k := 1 + rng.Intn(3); k > 0; k-- {
+			parts = append(parts, hit(d.markers[rng.Intn(len(d.markers))]))
+		}
+		out = append(out, strings.Join(parts, []string{" ", ", ", " ~ "}[rng.Intn(3)]))
+	}
+	return out
 }
 
 var randomPieces = []string{`(?P<p>\w+)`, `(\d+)`, `(?P<q>[a-z]*)`, `-`, `\s*`, `(?P<r>x)?`, `=`, `(?:ab)+`, `.`, `(?P<s>ø+)`, `!`,
@@ -382,6 +536,7 @@ func main() {
 	seed := flag.Int64("seed", 1, "PRNG seed")
 	nrand := flag.Int("rand", 6, "random extra comment rules")
 	ncomments := flag.Int("comments", 60, "random extra comments")
+	nalt := flag.Int("alts", 3, "random MatchComment calls with several regexps")
 	tmp := flag.String("tmp", "", "scratch directory")
 	flag.Parse()
 	rng := rand.New(rand.NewSource(*seed))
@@ -391,6 +546,20 @@ func main() {
 	toks := []string{"a", "bb", "é", "zz", "q"}
 	fams := []string{"fam1", "fam2"}
 	defs := append([]ruleDef{}, fixedRules...)
+	defs = append(defs, fixedAltRules...)
+	// calls with several regexps: comment bodies hit by each alternative and by each ordered pair of alternatives
+	var altBody []string
+	for _, d := range fixedAltRules {
+		if len(d.markers) > 0 && d.msg != "A5 [$word]" {
+			altBody = append(altBody, altBodies(rng, d, 6)...)
+		}
+	}
+	for j := 0; j < *nalt; j++ {
+		d := altRule(rng, j)
+		altBody = append(altBody, altBodies(rng, d, 8)...)
+		at := rng.Intn(len(defs) + 1)
+		defs = append(defs[:at], append([]ruleDef{d}, defs[at:]...)...)
+	}
 	// family rules keep their relative order but are spread over the rule list
 	for _, fam := range fams {
 		at := 0
@@ -444,6 +613,21 @@ func main() {
 		}() {
 			continue // a random rule that fires on the family comments would starve the family rules
 		}
+		if re := regexp.MustCompile(d.pats[0]); func() bool {
+			for _, b := range altBody {
+				if re.MatchString("// " + b) {
+					return true
+				}
+			}
+			for _, b := range append([]string{"// L1lo hum", "/* L2lo\nhum */", "// N1~lo"}, altFixed...) {
+				if re.MatchString(b) {
+					return true
+				}
+			}
+			return false
+		}() {
+			continue // likewise for the comments of the calls with several regexps and of the Line / Node rules
+		}
 		// random rules go in front of / between the fixed ones
 		k := rng.Intn(len(defs) + 1)
 		defs = append(defs[:k], append([]ruleDef{d}, defs[k:]...)...)
@@ -473,6 +657,10 @@ func main() {
 		var altLines []int
 		for k, p := range d.pats {
 			altLines = append(altLines, line)
+			if k >= 1 && k+1 < len(d.pats) && (di+k)%2 == 0 {
+				w("\t\t`" + p + "`, ") // the next alternative stands on the same line
+				continue
+			}
 			w("\t\t`" + p + "`,\n")
 			if k == 0 && len(d.pats) > 1 {
 				w("\n")
@@ -493,7 +681,7 @@ func main() {
 		for k, p := range d.pats {
 			re := regexp.MustCompile(p)
 			rules = append(rules, ruleSpec{Pat: p, Names: re.SubexpNames(), Groups: ruleguard.VerifRegexpHasCaptureGroups(p), NumSub: re.NumSubexp(),
-				Filter: d.filter, Msg: d.msg, Sugg: d.sugg, At: d.at, Line: altLines[k], Group: group, re: re})
+				Filter: d.filter, Msg: d.msg, Sugg: d.sugg, At: d.at, Line: altLines[k], Group: group, RFile: rfile, re: re})
 		}
 	}
 
@@ -508,7 +696,7 @@ func main() {
 		tb.WriteString(c)
 		tb.WriteString(suffix)
 	}
-	frags := []string{"foo", "bar", "FIXME", "k=v", "mode=x", "12-3", "xyz", "xz", "aab", "c", "ø", "øl", " ", "TODO(x): y", "beta w", "alt1-1", "end", "the", "=",
+	frags := []string{"foo", "bar", "FIXME", "k=v", "mode=x", "12-3", "xyz", "xz", "aab", "c", "ø", "øl", " ", "TODO(x): y", "beta w", "alt1:1", "end", "the", "=",
 		"é", "ab", "!", "x-", "1", "bob owes 12", "nobody owes 3", "k:=v", "x:=x", "[tag]", "[T9]", "qs", "qrs", "me@host", "you@there", "it@work", "one", "two", "three",
 		"say hi!", "say !", "z"}
 	randomComment := func() {
@@ -545,6 +733,25 @@ func main() {
 		}
 	}
 
+	altComment := func(body string) {
+		k := rng.Intn(4)
+		if strings.Contains(body, "\n") && k >= 2 {
+			k -= 2
+		}
+		switch k {
+		case 0:
+			addc("\t", "/* "+body+" */", "\n")
+		case 1:
+			addc("\t_ = \"日本\" ", "/*"+body+"*/", "\n")
+		case 2:
+			addc("\t_ = \"ü\" ", "//"+body, "\n")
+		default:
+			addc("\t", "// see "+body, "\n")
+		}
+	}
+	lineComments := []string{"// L1lo hum", "/* L1lo\n hum */", "/* L1lo\n\nhum*/", "// L2lo", "// L2lo hum", "/* L2w9\n\thum */", "/*\nL2lo hum\n*/", "//N1~lo", "/* N1~ N1~w9 */",
+		"/* L1x\r\nxx */"}
+
 	// file 0
 	cur = 0
 	tbs[0].WriteString("package target\n\n")
@@ -566,8 +773,8 @@ func main() {
 	addc("\t", "/* BEGIN\n\t line1\n\t line2 END */", "\n")
 	addc("\t", "/*a=1*/", "")
 	addc("", "/*mode=2*/", "\n")
-	addc("\t", "// alt2-7xy alt1-3", "\n")
-	addc("\t", "// alt1-9", "\n")
+	addc("\t", "// alt2:7xy alt1:3", "\n")
+	addc("\t", "// alt1:9", "\n")
 	addc("\t", "// the end", "\n")
 	addc("\t", "// ø", "\n")
 	addc("\t", "//", "\n")
@@ -588,12 +795,27 @@ func main() {
 	addc("\t", "/* k=1\r\n mode=crlf\r\n*/", "\n")
 	addc("\t", "// FIXME crlf line", "\r\n")
 	addc("\t", "/* foo\r*/", "\n")
+	for _, c := range lineComments {
+		addc("\t", c, "\n")
+	}
+	for _, c := range altFixed {
+		addc("\t", c, "\n")
+	}
+	for i, b := range altBody {
+		if i%3 != 2 {
+			altComment(b)
+		}
+	}
 	for i := 0; i < *ncomments; i++ {
 		if i%6 == 5 {
 			familyComment()
 		} else {
 			randomComment()
 		}
+	}
+	// far down the file (the Line of a comment piece against a constant)
+	for _, c := range lineComments {
+		addc("\t", c, "\n")
 	}
 	tbs[0].WriteString("}\n\n")
 	addc("", "// FIXME at eof", "") // no trailing newline
@@ -611,6 +833,14 @@ func main() {
 		}
 	}
 	addc("\t", "/* fam2:zz-q-a\n fam1:q-zz-bb */", "\n")
+	for i, b := range altBody {
+		if i%3 == 2 {
+			altComment(b)
+		}
+	}
+	for _, c := range altFixed {
+		addc("\t_ = \"日本\" ", c, "\n")
+	}
 	f0 := []string{"a", "bb", "é", "zz"}
 	for i, a := range f0 {
 		for j, b := range f0 {
@@ -657,6 +887,9 @@ func main() {
 		} else {
 			randomComment()
 		}
+	}
+	for i := 0; i < 12 && len(altBody) > 0; i++ {
+		altComment(altBody[rng.Intn(len(altBody))])
 	}
 	tbs[3].WriteString("}\n")
 	addc("", "/* fam2:a-q-é */", "")
@@ -711,6 +944,32 @@ func main() {
 		}
 	}
 	enc.Encode(map[string]interface{}{"k": "rules", "rules": rules})
+	// the rules as WRITTEN (one entry per MatchComment call, its regexps in the written order) and as LOADED (what the
+	// engine will try, in that order)
+	type altJS struct {
+		Pat  string `json:"pat"`
+		Line int    `json:"line"`
+	}
+	type iruleJS struct {
+		Group  string  `json:"group"`
+		File   int     `json:"file"`
+		Alts   []altJS `json:"alts"`
+		Filter *flt    `json:"filter"`
+		Msg    string  `json:"msg"`
+		Sugg   string  `json:"sugg"`
+		At     string  `json:"at"`
+	}
+	var irules []iruleJS
+	for ri := 0; ri < len(rules); {
+		r := rules[ri]
+		ir := iruleJS{Group: r.Group, File: r.RFile, Filter: r.Filter, Msg: r.Msg, Sugg: r.Sugg, At: r.At}
+		for ; ri < len(rules) && rules[ri].Group == r.Group; ri++ {
+			ir.Alts = append(ir.Alts, altJS{Pat: rules[ri].Pat, Line: rules[ri].Line})
+		}
+		irules = append(irules, ir)
+	}
+	enc.Encode(map[string]interface{}{"k": "irules", "irules": irules})
+	enc.Encode(map[string]interface{}{"k": "loaded", "loaded": ruleguard.VerifCommentRules(e)})
 	var srcs [][]byte
 	var bases []int
 	for _, t := range targets {
@@ -871,6 +1130,16 @@ func main() {
 								}
 							}
 							return nil
+						}, func(name string) int {
+							at := c.off + idx[0]
+							if name != "$$" {
+								p, ok := pos[name]
+								if !ok {
+									return -1
+								}
+								at = p[0]
+							}
+							return 1 + strings.Count(string(t.src[:at]), "\n")
 						})
 						if !okf {
 							continue
